@@ -27,7 +27,7 @@ def main(tier):
             raise vlib.Inconclusive("vacuous: no exchange with the simulated KDC succeeded")
         run.cov["distinct_nontrivial"] = len({json.dumps([x["ev"], x["kind"], x["cred"], x["reqAddrs"], x["preauth"], x["et"], x.get("devs"), x.get("code")]) for x in lines if x.get("devs") or x["ev"] == "krberror"})
         run.cov["rule"] = ("every single-field perturbation of the correct reply (thorough: every pair too), enumerated by TLC from KDCReplyCheck.tla, x "
-                           "{AS, TGS} x etypes (quick 18,23; thorough all six) x credential kind x request with/without addresses x KDC with/without "
+                           "{AS, TGS, TGS answered by a referral} x etypes (quick 18,23; thorough all six) x credential kind x request with/without addresses x KDC with/without "
                            "required pre-authentication; plus 11 KRB-ERROR codes per kind. Each case is one real exchange over loopback TCP with the "
                            "simulated KDC, observed through Client.Login/GetServiceTicket and through the exported Verify methods on the same bytes")
         for x in (lines[0], lines[5], lines[-1]):
